@@ -269,6 +269,24 @@ Proof.
   apply nth_error_In in Ej. specialize (Q lj Ej). unfold pending in Pj. rewrite Q in Pj. discriminate.
 Qed.
 
+(** corollaries in the form the property files state them *)
+Theorem fixed_finalised_exactly_once n sched :
+  let '(sh, ls) := run Fixed sched (sh0, repeat idle_thread n) in
+  fin sh <= 1 /\ (ar sh = false -> quiescent ls -> fin sh = 1).
+Proof.
+  pose proof (fixed_safe n sched) as S. pose proof (fixed_exactly_once n sched) as E.
+  destruct (run Fixed sched (sh0, repeat idle_thread n)) as [sh ls]. split; [apply S|exact E].
+Qed.
+
+Theorem fixed_idle_when_gone n sched :
+  let '(sh, _) := run Fixed sched (sh0, repeat idle_thread n) in
+  ar sh = false -> ap sh = false /\ fs sh = false.
+Proof.
+  pose proof (fixed_safe n sched) as S.
+  destruct (run Fixed sched (sh0, repeat idle_thread n)) as [sh ls].
+  destruct S as (_ & _ & F & E). intros A. split; [rewrite <- E; exact A|exact (F A)].
+Qed.
+
 (** ---- the code before the repair ---- *)
 Definition two := [start MDiscard; start MDiscard].
 
